@@ -42,6 +42,8 @@ type tPlan struct {
 	// only when they have to act themselves and at the very end.
 	Script  []string `json:"script,omitempty"`
 	Lagging []int    `json:"lagging,omitempty"`
+	// LagPropose: proposers need not have caught up with the board before they propose
+	LagPropose bool `json:"lag_propose,omitempty"`
 }
 
 // nodeModel is the reference counter for one node.
@@ -228,7 +230,10 @@ func runSignTape(fx *world.Fixture, p tPlan, root string, stepCheck bool) *tObs 
 		// proposals are posted at message level: besides an idle proposer (what the API demands) a proposer whose node
 		// still shows the cancelled batch may post one - the cancelled state is left on the next message of the round,
 		// which may be that very proposal
-		if ps := ""; nextBatch < nb && w.Lag(p.Batches[nextBatch].Proposer) == 0 && func() bool {
+		// (a proposer whose node lags behind the board proposes from what its node has seen, like an operator whose node
+		// was offline for a while: the proposal may then land in the middle of an open batch, or before everybody's
+		// reconstruction broadcasts of the batch that has just been completed)
+		if ps := ""; nextBatch < nb && (p.LagPropose || w.Lag(p.Batches[nextBatch].Proposer) == 0) && func() bool {
 			ps = w.StateOf(p.Batches[nextBatch].Proposer, fx.Round)
 			return ps == "stage_signing_idle" || strings.HasPrefix(ps, "state_signing_partial_signs_await_cancelled")
 		}() {
@@ -319,7 +324,10 @@ func runSignTape(fx *world.Fixture, p tPlan, root string, stepCheck bool) *tObs 
 			switch {
 			case strings.HasPrefix(step, "P"):
 				fmt.Sscanf(step, "P%d", &b)
-				pollEager(p.Batches[b].Proposer)
+				if !(p.LagPropose && inSet(p.Lagging, p.Batches[b].Proposer) && w.StateOf(p.Batches[b].Proposer, fx.Round) == "stage_signing_idle") {
+					// (a lagging proposer whose node shows an idle round proposes from what it has seen, without catching up first)
+					pollEager(p.Batches[b].Proposer)
+				}
 				if w.StateOf(p.Batches[b].Proposer, fx.Round) != "stage_signing_idle" {
 					obs.Err = fmt.Errorf("script: proposer of batch %d is not idle at %q", b, step)
 					return obs
